@@ -106,12 +106,13 @@ TNewtonEnd ==
 TErr ==
     \/ Hk(l, "bdf_acc") /\ Rec[l].n = order /\ ErrTest(TRUE, 0, FALSE) /\ Adv(1)
     \/ Hk(l, "bdf_rej") /\ Rec[l].n = order /\ (\E me \in MinExits(l + 1) : ErrTest(FALSE, StepTo(l + 1), me)) /\ Adv(1)
-TCb == /\ Line("cb") /\ api = "low" /\ Rec[l].k = ncb /\ Rec[l].x.r = x
+TCb == /\ Line("cb") /\ api = "low" /\ Rec[l].k = ncb
+       /\ (Flag(Rec[l].ret) # "Modified" => Rec[l].x.r = x)      \* (after ModifiedSolution the line carries x as the callback left it)
        /\ (Rec[l].hasip => Rec[l].ip.ord = order)               \* the order marker of the dense coefficients
-       /\ Callback(Flag(Rec[l].ret)) /\ Adv(1)
+       /\ Callback(Flag(Rec[l].ret), IF Flag(Rec[l].ret) = "Modified" THEN Rec[l].x.r ELSE x) /\ Adv(1)
 TCbS == /\ api = "solve_ivp" /\ l <= N /\ Rec[l].e # "ev"
-        /\ \/ IsRet(l) /\ Callback("Interrupt") /\ Stay
-           \/ Callback("Continue") /\ Stay
+        /\ \/ IsRet(l) /\ Callback("Interrupt", x) /\ Stay
+           \/ Callback("Continue", x) /\ Stay
 TPost ==
     IF Hk(l, "bdf_order") THEN Post(Rec[l].n, StepTo(l + 1)) /\ Adv(1)
     ELSE Post(0, 0) /\ Stay
